@@ -85,20 +85,24 @@ Section M.
   Definition chunk {A} (n : nat) (l : list A) : list (list A) := chunk_aux (length l) n l.
   Definition mean (l : list T) : T := div (rsum (fun i => nth i l (ofZ 0)) (length l)) (ofN (length l)).
   (** None models the ValueError NumPy raises when the mask and the data disagree in length *)
-  Definition gen_pupil (xs opd inten : list T) : option (list (list C)) :=
-    let mask := mask_list mask_psf xs in
+  Definition gen_pupil_m (mk : T -> T -> bool) (xs opd inten : list T) : option (list (list C)) :=
+    let mask := mask_list mk xs in
     if negb (Nat.eqb (count_true mask) (length opd)) || negb (Nat.eqb (length opd) (length inten)) then None else
     let mu := mean inten in
     let vals := map (fun '(w, i) => pupil_entry (div i mu) w) (combine opd inten) in
     Some (chunk (length xs) (fill mask vals)).
+  Definition gen_pupil := gen_pupil_m mask_psf.
 
   (** ** _pad_pupils *)
   Definition pad_of (grid n : Z) : Z := ((grid - n) / 2)%Z.
   Definition padded_size (grid n : Z) : Z := (n + 2 * pad_of grid n)%Z.
-  Definition pad2 (p : nat) (x : list (list C)) : list (list C) :=
+  (** [p] zero samples before and [q] after, on both axes *)
+  Definition pad2g (p q : nat) (x : list (list C)) : list (list C) :=
     let n := length x in
-    let zrow := repeat c0 (n + 2 * p) in
-    repeat zrow p ++ map (fun r => repeat c0 p ++ r ++ repeat c0 p) x ++ repeat zrow p.
+    let zrow := repeat c0 (p + n + q) in
+    repeat zrow p ++ map (fun r => repeat c0 p ++ r ++ repeat c0 q) x ++ repeat zrow q.
+  (** as written: the same amount on both sides *)
+  Definition pad2 (p : nat) := pad2g p p.
 
   (** ** _get_normalization (one wavelength) *)
   Definition max_sqmod (n : nat) (x : nat -> nat -> C) : T :=
@@ -111,12 +115,16 @@ Section M.
     max_sqmod (length P) (fun m n => ofR (cabs (get2 P m n))).
 
   (** ** _compute_psf : one pixel, and the whole image *)
+  Definition raw_at (M : nat) (Pp : list (list C)) (i j : nat) : T :=
+    let a := dft2 M (get2 Pp) (unshift M i) (unshift M j) in fst (cmul a (cconj a)).
   Definition psf_at (M : nat) (Pp : list (list C)) (norm : T) (i j : nat) : T :=
-    let a := dft2 M (get2 Pp) (unshift M i) (unshift M j) in
-    mul (div (fst (cmul a (cconj a))) norm) (ofZ 100).
-  Definition psf_rows (Pp : list (list C)) (norm : T) : list (list T) :=
+    mul (div (raw_at M Pp i j) norm) (ofZ 100).
+  Definition raw_rows (Pp : list (list C)) : list (list T) :=
     let M := length Pp in
-    map (fun i => map (fun j => psf_at M Pp norm i j) (seq 0 M)) (seq 0 M).
+    map (fun i => map (fun j => raw_at M Pp i j) (seq 0 M)) (seq 0 M).
+  Definition scale_rows (norm : T) (rows : list (list T)) : list (list T) :=
+    map (map (fun v => mul (div v norm) (ofZ 100))) rows.
+  Definition psf_rows (Pp : list (list C)) (norm : T) : list (list T) := scale_rows norm (raw_rows Pp).
   (** the pipeline FFTPSF.__init__ runs: pupils -> pad -> transform -> normalise.
       [fixed] selects the normaliser variant. *)
   Definition fftpsf (fixed : bool) (grid : Z) (xs opd inten : list T) : option (list (list T)) :=
@@ -128,6 +136,29 @@ Section M.
       let Pp := pad2 (Z.to_nat p) P in
       Some (psf_rows Pp (if fixed then norm_abs P else norm_nnz P))
     end.
+  (** The same pipeline under every combination of the three proposed repairs, sharing the transforms:
+      index = 4*mask + 2*pad + norm, with mask 0 = sqrt(x^2+y^2)<=1 (as written) / 1 = x^2+y^2<=1,
+      pad 0 = symmetric (as written) / 1 = exactly grid_size, norm 0 = non-zero count (as written) / 1 = |P|.
+      The correspondence check accepts the code iff ONE index matches on every case. *)
+  Definition psf_variants (grid : Z) (xs opd inten : list T) : list (option (list (list T))) :=
+    let n := Z.of_nat (length xs) in
+    let Pa := gen_pupil_m mask_psf xs opd inten in
+    let same := forallb (fun '(a, b) => Bool.eqb a b) (combine (mask_list mask_psf xs) (mask_list mask_dist xs)) in
+    let four := fun (P : option (list (list C))) =>
+      match P with
+      | None => [None; None; None; None]
+      | Some P =>
+        let p := pad_of grid n in
+        let q := (grid - n - p)%Z in
+        if (p <? 0)%Z then [None; None; None; None] else
+        let nA := norm_nnz P in
+        let nB := norm_abs P in
+        let rS := raw_rows (pad2g (Z.to_nat p) (Z.to_nat p) P) in
+        let rE := if (q =? p)%Z then rS else raw_rows (pad2g (Z.to_nat p) (Z.to_nat q) P) in
+        [Some (scale_rows nA rS); Some (scale_rows nB rS); Some (scale_rows nA rE); Some (scale_rows nB rE)]
+      end in
+    let fa := four Pa in
+    fa ++ (if same then fa else four (gen_pupil_m mask_dist xs opd inten)).
 
   (** ** FFTMTF._generate_mtf_data for one PSF image: data = |fftshift(fft2(psf))|,
       tangential = data[g/2:, g/2] / max, sagittal = data[g/2, g/2:] / max *)
